@@ -28,9 +28,9 @@ META = {
         "a file whose stem ends in 'v2' is a compact document; scenarios only use the documented '*.v2.json' convention",
         "overlays stay format-conforming at the levels the library interprets (a country entry is a dict with consistent structure/length keys)",
     ],
-    "min_distinct": {"quick": 15000, "thorough": 300000},
+    "min_distinct": {"quick": 25000, "thorough": 800000},
 }
-SIZES = {"quick": dict(merges=20000, hyp=300, scenarios=20, mshards=4), "thorough": dict(merges=400000, hyp=6000, scenarios=300, mshards=12)}
+SIZES = {"quick": dict(merges=40000, hyp=600, scenarios=32, mshards=6), "thorough": dict(merges=1500000, hyp=20000, scenarios=600, mshards=14)}
 
 SCALARS = [None, True, False, 0, 1, -7, 3.5, "", "x", "DE", [1, 2], [], [{"a": 1}], "positions"]
 KEYS = ["a", "b", "c", "positions", "bank_code", "DE", "FR", "x", "in_sepa_zone", ""]
@@ -285,14 +285,8 @@ def run_scenario(shard, mon, S):
     keys = sorted(k for k in lookup.by_key(banks) if k[0] in cs)
     rng.shuffle(keys)
     sub = {"kind": "keys", "part": 0, "parts": 1, "tier": shard["tier"], "config": scn}
-    idx_all = lookup.by_key(banks)
-    # run the C12 key monitor on the affected keys only
-    saved = lookup.by_key
-    try:
-        lookup.by_key = lambda b=None: {k: idx_all[k] for k in keys[:150]}
-        c12.run_keys(sub, mon, S)
-    finally:
-        lookup.by_key = saved
+    # run the C12 key monitor on (a sample of) the keys of the affected countries; the index stays complete
+    c12.run_keys(sub, mon, S, only_keys=keys[:150])
     mon.sample({"scenario": scn, "files": shard.get("files"), "affected": shard.get("affected")})
 
 
